@@ -502,7 +502,13 @@ impl<'a> ExtensionField<'a> {
             TypeId::ReferenceIdRequest
                 if extension_header_version == ExtensionHeaderVersion::V5 =>
             {
-                Ok(ReferenceIdRequest::decode(message)?.into())
+                let request = ReferenceIdRequest::decode(message)?;
+                // like `ReferenceIdRequest::new`: a request for a number of octets that is not
+                // a whole number of words cannot be encoded again, so it is not accepted
+                if !request.payload_len().is_multiple_of(4) {
+                    return Err(ParsingError::IncorrectLength);
+                }
+                Ok(request.into())
             }
             TypeId::ReferenceIdResponse
                 if extension_header_version == ExtensionHeaderVersion::V5 =>
